@@ -240,12 +240,13 @@ example :
 /-! ## api_script_agree -/
 
 /-- api → script: a value stored through `bloc_ctx_store_variable` into the symbol found under `name` is what a
-script reads when it evaluates that name (whatever the function table, depth and state of the rest). -/
+script reads when it evaluates that name (whatever the function table, depth and state of the rest; no `forall` running in that context, where the
+name could be an iterator). -/
 theorem api_script_agree_store (x x' : Ctx) (name : String) (id : Nat) (b : Val)
     (hf : findSym x name = some id) (hs : storeInto x id b = .ok x') (hv : id < x.vals.length) (hsy : id < x.syms.length)
-    (funcs : List Func) (depth fuel : Nat) (st : St) (hst : st.vars = ctxVars x') :
+    (funcs : List Func) (depth fuel : Nat) (st : St) (hst : st.vars = ctxVars x') (hit : st.iters = []) :
     eval funcs depth (fuel + 1) (.var name) st = (.ok b, st) := by
-  rw [eval_var, hst]
+  rw [eval_var _ _ _ _ _ hit, hst]
   unfold ctxVars
   unfold findSym at hf
   have hs1 : x.syms[id]? = some x.syms[id] := by simp [hsy]
